@@ -181,7 +181,11 @@ func (s *Shard) IsInterfaceNil() bool             { return s == nil }
 // AccountsAdapter: LoadAccount hands out a private copy; only SaveAccount makes changes visible.
 func (s *Shard) LoadAccount(addr []byte) (vmcommon.AccountHandler, error) {
 	s.Loads++
-	if s.Faults.Hit("load") {
+	kind := "load"
+	if bytes.Equal(addr, SysAddr) {
+		kind = "sysload"
+	}
+	if s.Faults.Hit(kind) {
 		return nil, ErrInjected
 	}
 	if a, ok := s.Accounts[string(addr)]; ok {
